@@ -114,6 +114,7 @@ func (p *c16) Gen(seed uint64, i int, tier string) (any, bool) {
 		sc.Server.Caps = append(sc.Server.Caps, "STARTTLS")
 		sc.Server.TLS = refsmtpd.TLSCfg{Cert: "valid", Version: sim.Pick(r, []string{"1.2", "1.3"})}
 	}
+	sc.Server.Auth.LoginPrompts = sim.Pick(r, LoginPromptSets)
 	fail := refsmtpd.Action{Code: 535, Text: "authentication credentials invalid"}
 	switch script {
 	case "fail-auth":
